@@ -20,6 +20,24 @@ ProbeNext ==
     \/ probe \in 1 .. Len(ReadSeq) /\ Do(ReadSeq[probe][1], ReadSeq[probe][2]) /\ probe' = probe + 1
 ProbeSpec == ProbeInit /\ [][ProbeNext]_pvars
 
+(* Persistence probe: [writer A;] Save; writer B; Load | LoadInplace; reads.  A state-changing operation between *)
+(* the save and the load leads back to a state the model already knows through a shorter history, so neither the   *)
+(* state cover nor the transition cover above exercises "load must undo B" unless CoreLen >= 3.                     *)
+StateWriters == {"Rename", "MemberSetPeriod", "MemberPropagate", "Propagate", "ToDf"}
+PReadSeq == << <<"ParamName", <<>>>>, <<"ParamValues", <<>>>>, <<"Periods", <<>>>>, <<"MemberReadTrajectory", <<1>>>>,
+               <<"MemberReadTrajectory", <<2>>>>, <<"ToDf", <<"s1">>>> >>
+PersistInit == Init /\ probe = -4
+PersistNext ==
+    \/ probe = -4 /\ Next /\ LastRec.op \in StateWriters /\ probe' = -3
+    \/ probe = -4 /\ UNCHANGED vars /\ probe' = -3
+    \/ probe = -3 /\ Do("Save", <<>>) /\ probe' = -2
+    \/ probe = -2 /\ Next /\ LastRec.op \in StateWriters /\ probe' = -1
+    \/ probe = -1 /\ (Do("Load", <<>>) \/ Do("LoadInplace", <<>>)) /\ probe' = 1
+    \/ probe \in 1 .. Len(PReadSeq) /\ Do(PReadSeq[probe][1], PReadSeq[probe][2]) /\ probe' = probe + 1
+PersistSpec == PersistInit /\ [][PersistNext]_pvars
+PersistView == <<probe, hist>>
+EmitPersist == (probe = Len(PReadSeq) + 1) => PrintT(ToJson(hist))
+
 CoreView  == <<ctor, nm, L, I, saved>>
 ProbeView == IF probe = 0 THEN <<CoreView, 0, <<>>>> ELSE <<CoreView, probe, hist>>
 EmitProbe == (probe = Len(ReadSeq) + 1) => PrintT(ToJson(hist))
